@@ -124,7 +124,7 @@ theorem zipIdx_keepP {α : Type} (p : Nat → Bool) (l : List α) : ∀ (k off :
 theorem postings_survivors (s : AbsSeg) (d : List Nat) (start : Nat) (f t : Bytes) :
     ((survivors s d).zipIdx start).filterMap (fun q => postingOf q.1 q.2 f t) =
       ((postings s f t).filter (fun p => !d.contains p.doc)).map
-        (fun p => { p with doc := start + live d p.doc }) := by
+        (fun p => { p with doc := start + liveCount d p.doc }) := by
   rw [survivors_eq, zipIdx_keepP, List.filterMap_map]
   unfold postings
   have hrange : ∀ n, List.range' 0 (n - 0) = List.range n := by
@@ -147,7 +147,7 @@ theorem postings_survivors (s : AbsSeg) (d : List Nat) (start : Nat) (f t : Byte
       by_cases hd : (!d.contains q.2) = true
       · simp only [hd, if_true, List.filterMap_cons, List.filter_cons, hx]
         rw [postingOf_renumber q.1 q.2 _ f t, hpo]
-        simp only [Option.map_some, List.map_cons, ih, hx, live]
+        simp only [Option.map_some, List.map_cons, ih, hx, liveCount]
       · simp only [hd, List.filter_cons, hx, Bool.false_eq_true, if_false]
         exact ih
 
@@ -187,7 +187,7 @@ def activeFrom (f : Bytes) : List (AbsSeg × List Nat) → Nat → List Active
     (if (terms s f).isEmpty then []
      else [{ dict := absDict s f, drops := normDrops d,
              newDocNums := remapList s.docs.length d start }]) ++
-    activeFrom f r (start + live d s.docs.length)
+    activeFrom f r (start + liveCount d s.docs.length)
 
 theorem setupActive_cons (x : SegIn) (r : List SegIn) :
     setupActive (x :: r) = setupActive [x] ++ setupActive r := by
@@ -215,7 +215,7 @@ theorem setupActive_abs (f : Bytes) : ∀ (ins : List (AbsSeg × List Nat)) (sta
     intro start
     obtain ⟨s, d⟩ := p
     simp only [List.map_cons, remapAll_cons, List.zip_cons_cons, activeFrom]
-    rw [setupActive_cons, ih (start + live d s.docs.length), setupActive_one]
+    rw [setupActive_cons, ih (start + liveCount d s.docs.length), setupActive_one]
 
 theorem setupActive_absSegs (mode : Nat) (f : Bytes) (ins : List (AbsSeg × List Nat)) :
     setupActive (absSegs mode f ins) = activeFrom f ins 0 := by
@@ -246,7 +246,7 @@ theorem lookupK_absDict (s : AbsSeg) (f t : Bytes) :
       simp [h, this]
 
 theorem newDocOf_remapList (n : Nat) (d : List Nat) (start x : Nat) (hx : x < n)
-    (hd : d.contains x = false) : newDocOf (remapList n d start) x = start + live d x := by
+    (hd : d.contains x = false) : newDocOf (remapList n d start) x = start + liveCount d x := by
   have : x ∉ d := by simpa using hd
   simp [newDocOf, getElem?_remapList, hx, this]
 
@@ -264,7 +264,7 @@ theorem termPostings_spec (f t : Bytes) : ∀ (ins : List (AbsSeg × List Nat)) 
     obtain ⟨s, d⟩ := p
     simp only [List.flatMap_cons, List.zipIdx_append, List.filterMap_append, length_survivors,
       postings_survivors, activeFrom]
-    rw [← ih (start + live d s.docs.length)]
+    rw [← ih (start + liveCount d s.docs.length)]
     simp only [termPostings, List.flatMap_append]
     congr 1
     -- the part of segment `s`
